@@ -564,6 +564,77 @@ def _run_plug_timeout(case):
   return {'toks': [], 'n': 0, 'per': {}, 'final': None, 'extras': sorted(set(facts)), 'steps': s.step, 'live': True}
 
 
+def _run_plug_wait(case):
+  """a frontend parked in PlugManager.wait_for_plug_update (the station API's long poll, looping with the last state
+  it was given) while the phase drives the UserInput plug through notifications that change nothing (remove_prompt
+  without a prompt) and real changes: a little after every step the frontend has the plug's current state"""
+  import openhtf as htf
+  from harness import sched_exec
+  from openhtf.plugs import user_input
+  sched_exec.install(False)
+  sched._patch(user_input, 'threading', sched.shim_threading())
+  facts = []
+  box = {'got': 'nothing-yet'}
+  vt = sched.VTime()
+  name = 'openhtf.plugs.user_input.UserInput'
+
+  @htf.plug(ui=user_input.UserInput)
+  def driver(test, ui):
+    box['plug'] = ui
+    for op in case['ops']:
+      if op == 'noop':
+        ui.remove_prompt() if ui._asdict() is None else ui.notify_update()
+      elif op == 'show':
+        if ui._asdict() is None:
+          ui.start_prompt('question', text_input=False)
+      elif op == 'hide':
+        ui.remove_prompt()
+      # things are quiet now: give the frontend time (its poll time-out is much longer than this)
+      vt.sleep(0.2)
+      if box['got'] != ui._asdict():
+        facts.append('X:frontend-long-poll-missed-a-plug-update-after:' + op)
+    ui.remove_prompt()
+    box['phase_done'] = True
+  test = htf.Test(driver)
+  test.configure(name='verif_plug_wait')
+
+  def frontend():
+    s = sched.SCHED
+    s.block(lambda: box.get('plug') is not None or box.get('over'), None, 'wait-for-plug')
+    if box.get('plug') is None:
+      return
+    pm = test._executor.test_state.plug_manager
+    remote = 'never-seen'
+    while not box.get('over'):
+      try:
+        st = pm.wait_for_plug_update(name, remote, 5.0)
+      except Exception as e:  # pylint: disable=broad-except
+        # (after the run's plugs were torn down the plug is no longer known: the end of the frontend's loop)
+        if not box.get('over') and not box.get('phase_done'):
+          facts.append('X:wait-for-plug-update-raised:' + type(e).__name__)
+        return
+      # (None is both "no prompt" and "time-out"; after a time-out the next call returns at once with the state)
+      remote = st
+      box['got'] = st
+
+  def body(s):
+    w = threading.Thread(target=frontend)
+    w._cosched_name = 'frontend'
+    w.start()
+    try:
+      test.execute()
+    finally:
+      box['over'] = True
+      if box.get('plug') is not None:
+        box['plug'].notify_update()
+    w.join(10)
+    return True
+  rbox, s = sched.run(sched.chooser_for(case, 'c18pw'), body, max_steps=100000)
+  if s.deadlock or 'sched_error' in rbox:
+    facts.append('X:deadlock-or-stuck')
+  return {'toks': [], 'n': 0, 'per': {}, 'final': None, 'extras': sorted(set(facts)), 'steps': s.step, 'live': True}
+
+
 def _run_live(case):
   """a snapshot-then-wait watcher on a RUNNING phase: after the phase's last assignment (and its notification) the
   watcher is given the time to wake up and take its snapshot; that snapshot must show the values the measurements now
@@ -646,6 +717,8 @@ def run_real(case):
     return _run_live(case)
   if k == 'plugto':
     return _run_plug_timeout(case)
+  if k == 'plugwait':
+    return _run_plug_wait(case)
   if k == 'bare':
     return _run_bare(case)
   if k == 'test':
@@ -677,7 +750,7 @@ def classify(case, o):
 def nontrivial_key(case, o):
   if case['kind'] == 'notify':
     return None if not o['obs'] else json.dumps(case, sort_keys=True)
-  if case['kind'] in ('live', 'plugto'):
+  if case['kind'] in ('live', 'plugto', 'plugwait'):
     return json.dumps(case, sort_keys=True)
   return ' '.join(o['toks']) + '|' + case['kind'] + str(case.get('wmode')) if (o['toks'] or case['kind'] == 'plug') else None
 
@@ -738,6 +811,8 @@ def gen_cases(rng, tier):
   for i in range(12 if quick else 300):
     r = rng.derive('pt%d' % i)
     cases.append({'kind': 'plugto', 'prompts': r.choice([1, 2]), 'rseed': r.getrandbits(32)})
+    cases.append({'kind': 'plugwait', 'ops': [r.choice(['noop', 'show', 'hide', 'noop']) for _ in range(r.choice([2, 3, 5]))],
+                  'rseed': r.getrandbits(32)})
   for i in range(20 if quick else 400):
     r = rng.derive('p%d' % i)
     cases.append({'kind': 'plug', 'prompts': r.choice([1, 2, 3]), 'rseed': r.getrandbits(32),
